@@ -117,6 +117,60 @@ func DoubleInclusion(env *core.Env, rep *core.Report, iters int) int {
 			break
 		}
 	}
+	// C02, the same at a chosen moment: the goroutine of the failing stage is held right after its
+	// Error status has become visible (where the Go scheduler may equally suspend it), until the
+	// nested loop that did NOT start that stage has returned. That loop has seen every stage of the
+	// pipeline terminal; it must nevertheless return the pipeline's failure.
+	for k := 0; k < 3; k++ {
+		var n int32
+		ft := task.FromCommands("false")
+		ft.Name = "fails"
+		u2 := &scheduler.Stage{Name: "u2", Task: ft}
+		inner, _ := scheduler.NewExecutionGraph(&scheduler.Stage{Name: "u1", Task: task.FromCommands("true")}, u2)
+		a := &scheduler.Stage{Name: "a", Pipeline: inner}
+		b := &scheduler.Stage{Name: "b", Pipeline: inner}
+		da := &scheduler.Stage{Name: "da", Task: task.FromCommands("true"), DependsOn: []string{"a"}}
+		db := &scheduler.Stage{Name: "db", Task: task.FromCommands("true"), DependsOn: []string{"b"}}
+		outer, err := scheduler.NewExecutionGraph(a, b, da, db)
+		if err != nil {
+			core.Broken("graph: %v", err)
+		}
+		var bothIn int32
+		scheduler.VerifStatusStoredHook = func(st *scheduler.Stage, status int32) {
+			if st != u2 || status != scheduler.StatusError {
+				return
+			}
+			if a.ReadStatus() == scheduler.StatusRunning && b.ReadStatus() == scheduler.StatusRunning {
+				atomic.StoreInt32(&bothIn, 1)
+			}
+			// wait until one of the including stages is over (the one whose loop did not start u2 can
+			// get there; the other waits for this goroutine), at most 2 s
+			lim := time.Now().Add(2 * time.Second)
+			for time.Now().Before(lim) && a.ReadStatus() == scheduler.StatusRunning && b.ReadStatus() == scheduler.StatusRunning {
+				time.Sleep(200 * time.Microsecond)
+			}
+		}
+		s := scheduler.NewScheduler(countingRunner{&n})
+		s.VerifSetPause(100 * time.Microsecond)
+		done := make(chan error, 1)
+		go func() { done <- s.Schedule(outer) }()
+		var serr error
+		select {
+		case serr = <-done:
+		case <-time.After(20 * time.Second):
+			scheduler.VerifStatusStoredHook = nil
+			rep.Add(core.Finding{Prop: "C03", Key: "C03:doubly-included-pipeline:schedule-does-not-return", What: "a failing pipeline included by two stages (failing goroutine held after its status store): Schedule did not return within 20 s", Detail: nil})
+			return iters
+		}
+		scheduler.VerifStatusStoredHook = nil
+		st := fmt.Sprintf("a=%s b=%s da=%s db=%s", statusName[a.ReadStatus()], statusName[b.ReadStatus()], statusName[da.ReadStatus()], statusName[db.ReadStatus()])
+		if atomic.LoadInt32(&bothIn) == 1 && (serr == nil || st != "a=E b=E da=C db=C") {
+			rep.Add(core.Finding{Prop: "C02", Key: "C02:doubly-included-pipeline:failure-missed-by-the-loop-that-did-not-start-the-failing-stage",
+				What:   fmt.Sprintf("a pipeline with a failing stage included by stages a and b (each with a dependant); the failing stage's goroutine is suspended right after its Error status became visible until an including stage is over: ended with %s, error %v; expected a=E b=E da=C db=C and an error", st, serr),
+				Detail: nil})
+			break
+		}
+	}
 	// C04: two stages that include the same pipeline and are eligible together both run (both are
 	// Running while the pipeline's task is in flight); neither waits for the other to be over
 	for k := 0; k < 5; k++ {
